@@ -1027,11 +1027,17 @@ def case_aggregation(p, ctx):
         options["rho"] = p["rho"]
     agg = maker(f, **options)
     ctx.check(agg.dim == 1, "aggregation_value", f"declared dim {agg.dim}")
-    for pt in p["points"]:
+    for k_pt, pt in enumerate(p["points"]):
         x = grid(pt)
         mag = Mag()
         g, jg = ref_eval(tree, x, mag)
         cands, top, margin, s = ref_aggregation(method, g, jg, p["indices"], p["scale"], p["rho"])
+        want_jac = jac_ok and not (method == "max" and margin < 1e-9)
+        # every other point: the Jacobian is requested BEFORE anything was evaluated at that point
+        # (an aggregation must not reuse the operand's value at the previously evaluated point)
+        raw_first = agg.jac(x) if (want_jac and k_pt % 2 == 1) else None
+        if raw_first is not None:
+            ctx.cls("aggregation_jacobian_before_value_at_a_new_point")
         before = operands_snapshot(env, x, True)
         value, hits = _match_candidate(ctx, "aggregation_value", agg.evaluate(x), cands, 1e-10 * s * s, method)
         small = 1e-12 * (1 + abs(top))
@@ -1041,8 +1047,8 @@ def case_aggregation(p, ctx):
             ctx.check(value <= top + small, "aggregation_bound", f"lower-bound KS {value!r} is above the maximum {top!r}")
         elif method == "iks":
             ctx.check(value <= top + small, "aggregation_bound", f"IKS {value!r} is above the maximum {top!r}")
-        if jac_ok and not (method == "max" and margin < 1e-9):
-            raw = agg.jac(x)
+        if want_jac:
+            raw = agg.jac(x) if raw_first is None else raw_first
             gj = norm_jac(raw, 1, n)
             ctx.check(gj is not None, "aggregation_jacobian", f"{method}: Jacobian has shape {np.shape(raw)}, expected ({n},)")
             refs = [cands[i][1] @ jg for i in hits]
